@@ -985,7 +985,7 @@ Definition finish_p (s : st) : res out :=
     let gap := s_off data - metadata_len in
     if (metadata_len <=? s_off data) && (gap =? 0) then
       Ok {| o_metadata := Some (hdr_put fh ++ fp ++ hdr_put mh ++ put_nodes kids, 0); o_data := data |}
-    else if (metadata_len <=? s_off data) && (PAD_HEADER_SIZE <=? gap) && (gap <=? MAX_PAD_SIZE) then
+    else if (metadata_len <=? s_off data) && (PAD_HEADER_SIZE <=? gap) && (gap <=? MAX_PAD_SIZE) && (gap <=? metadata_len) then
       Ok {| o_metadata := Some (hdr_put fh ++ fp ++ hdr_put mh ++ put_nodes kids
                                   ++ hdr_put (with_u32_data_size (FourCC t_free) (gap - PAD_HEADER_SIZE)),
                                 gap - PAD_HEADER_SIZE);
@@ -1014,7 +1014,7 @@ Proof.
   rewrite runo_pbind_lift, rmap_rbind. apply rbind_ext. intros ml.
   destruct ((ml <=? s_off data) && (s_off data - ml =? 0)).
   { reflexivity. }
-  destruct ((ml <=? s_off data) && (PAD_HEADER_SIZE <=? s_off data - ml) && (s_off data - ml <=? MAX_PAD_SIZE)).
+  destruct ((ml <=? s_off data) && (PAD_HEADER_SIZE <=? s_off data - ml) && (s_off data - ml <=? MAX_PAD_SIZE) && (s_off data - ml <=? ml)).
   { reflexivity. }
   destruct (displacement (s_off data) ml) as [d|]; [|reflexivity].
   rewrite runo_pbind_lift, rmap_rbind. apply rbind_ext. intros [kids' l].
